@@ -1,5 +1,6 @@
 import NetaddrVerif.Model.Proto
 import NetaddrVerif.Model.Codec
+import NetaddrVerif.Model.CodecObj
 import NetaddrVerif.Driver.C08
 /-! Driver ops of property C15 (binary / bit / word / DNS / base-85 encodings).
 
@@ -85,10 +86,11 @@ def handle (op : String) (args : List String) : Option String :=
     -- object-level accessors: IPAddress / EUI (EUI: module default dialect for words / bits())
     let f ← parseFam fam; let v ← v.toNat?; let sep ← parseOptStr sep
     if f.kind = 4 ∨ f.kind = 6 then
-      let bits := if f.kind = 4 then V4.intToBits v sep else V6.intToBits v sep
-      pure (" ".intercalate [showR showNats (famWords f v), optField showBytes (famPacked f v),
-        showR showBytes (toBytes (f.width / 8) v), showR showStr bits, showR showStr (intToBin v f.width),
-        optField showStr (famArpa f v)])
+      -- the accessors of the `IPAddress` object (Model/CodecObj.lean)
+      let a : Addr := ⟨f.kind, v⟩
+      pure (" ".intercalate [showR showNats (IPObj.words a), showR showBytes (IPObj.packed a),
+        showR showBytes (IPObj.bytes a), showR showStr (IPObj.bits a sep), showR showStr (IPObj.bin a),
+        showR showStr (IPObj.reverseDns a)])
     else
       pure (" ".intercalate [showR showNats (Eui.words f.kind v), showR showBytes (Eui.packed f.kind v),
         "-", showR showStr (Eui.bits f.kind v sep), showR showStr (intToBin v f.width), "-"])
